@@ -4,6 +4,7 @@ import MdwModel.Driver.C13
 import MdwModel.Driver.Stack
 import MdwModel.Driver.C15
 import MdwModel.Driver.C01
+import MdwModel.Driver.C19
 import MdwModel.Model.Records
 import Std.Data.HashMap
 open Mdw.Drv
@@ -40,6 +41,7 @@ def dispatchPure (prop : String) (kv : List (String × String)) : Res :=
 def dispatch (prop : String) (kv : List (String × String)) : IO Res := do
   match prop with
   | "C01" => C01.run kv
+  | "C19" => C19.run kv
   | _ => return dispatchPure prop kv
 
 partial def loop (h : IO.FS.Stream) (stats : Std.HashMap String Stats) : IO (Std.HashMap String Stats) := do
